@@ -25,7 +25,8 @@ TRUSTED = [
 ]
 ASSUMPTIONS = [
     "user callbacks attached to request Deferreds are straight-line sequences of close / disconnect / cancel(id) / makeRequest(id) (any length, nested to any depth: modelled in Afkak/BrokerClientR.lean and generated); callbacks that branch on their result or attach callbacks to the Deferreds they create are not modelled",
-    "the endpoint may ignore cancel() and connect from inside the canceller (test_close_connecting_succeed's pathological endpoint) and may report the outcome of connect() synchronously: both modelled and generated; a synchronously failing endpoint combined with a zero retry delay (a busy loop) is not generated",
+    "the endpoint may ignore cancel() and connect from inside the canceller (test_close_connecting_succeed's pathological endpoint), may report the outcome of connect() synchronously, and may fail a cancelled attempt with CancelledError / ConnectingCancelledError (Twisted's TCP, hostname and TLS endpoints) / another failure: all modelled and generated; a synchronously failing endpoint combined with a zero retry delay (a busy loop) is not generated",
+    "a transport that keeps delivering after loseConnection() (TLS, simulated transports) is driven at the protocol level only (KafkaProtocol / KafkaBootstrapProtocol fed directly; Lean monitor framesGenuine); for the broker client the transport stops reading at loseConnection() (TCP)",
     "correlation ids of responses are signed 32-bit; a caller using an id outside that range never gets a reply matched (modelled as such)",
     "the flat monitors (Monitor.C06.accepts / routesOk, Monitor.C10.accepts) judge the flat prefix of an implementation trace - up to the first callback / stubborn / synchronous-endpoint event; beyond it only the stream monitors r06 / r10 and the strict model/implementation diff apply (counts in extra.flat_monitor_coverage)",
 ]
@@ -127,74 +128,191 @@ def frame_cases(ctx, res, cases):
     res.traces_validated += len(cases)
 
 
+def genuine_line(chunks, outs):
+    """`mon-genuine` request: per chunk, the packets the real protocol handed to stringReceived during it"""
+    ws = []
+    for c, o in zip(chunks, outs):
+        pk = [x.split()[1] for x in o if x.startswith("frame ")]
+        ws += [hx(c), ",".join(pk) if pk else "."]
+    return "mon-genuine " + " ".join(ws)
+
+
 def after_exceeded_cases(ctx, res, n):
-    """The loop AS WRITTEN keeps the whole buffer after lengthLimitExceeded; a transport that kept delivering
-    would re-deliver packets.  Not reachable with a real transport - checked so that the model is the code."""
+    """A transport that KEEPS DELIVERING after loseConnection() (TLS, a simulated transport): the loop as written
+    keeps the whole buffer after lengthLimitExceeded, re-delivers the genuine frames before the over-long prefix and
+    stops at it again; it never resynchronises inside the stream.  Both protocols; compared with the model chunk by
+    chunk, and the Lean monitor `framesGenuine` (every packet delivered is a frame of the byte stream, proved of the
+    model: C06_only_genuine_frames) is evaluated on what the real protocol delivered."""
     rng = ctx.rng
-    lines, exp = [], []
-    for _ in range(n):
+    lines, exp, meta, mons = [], [], [], []
+    for i in range(n):
         data, _, _ = gen_stream(rng)
-        chunks = cut(rng, data + struct.pack(">I", 0x90000000) + bytes(rng.randrange(256) for _ in range(rng.randrange(0, 9))))
-        chunks += [bytes(rng.randrange(256) for _ in range(rng.randrange(0, 9))) for _ in range(rng.randrange(1, 3))]
-        fr = FrameRun()
+        pfx = struct.pack(">I", rng.choice([0x90000000, 0x80000000, 0xFFFFFFFF, rng.randrange(0x80000000, 0x100000000)]))
+        chunks = cut(rng, data + pfx + bytes(rng.randrange(256) for _ in range(rng.randrange(0, 9))))
+        # LATER reads: well-formed frames (what a loop restarting after the prefix would deliver), garbage, another prefix
+        for _ in range(rng.randrange(1, 4)):
+            m = rng.random()
+            if m < 0.6:
+                chunks += cut(rng, b"".join(lenpfx(bytes(rng.randrange(256) for _ in range(rng.choice([0, 4, 5, 12])))) for _ in range(rng.randrange(1, 3))))
+            elif m < 0.85:
+                chunks.append(bytes(rng.randrange(256) for _ in range(rng.randrange(0, 9))))
+            else:
+                chunks.append(struct.pack(">I", 0x80000000 + rng.randrange(0, 99)))
+        boot = i % 3 == 2
+        fr = FrameRun(bootstrap=boot)
         lines.append("fr-new")
         exp.append(["ok"])
-        for c in chunks:
+        meta.append(None)
+        outs = []
+        for j, c in enumerate(chunks):
             lines.append("fr-feed " + hx(c))
-            exp.append(fr.feed(c))
+            o = fr.feed(c)
+            outs.append(o)
+            exp.append(o)
+            meta.append((chunks, j, boot))
+        lines.append(genuine_line(chunks, outs))
+        exp.append(None)
+        meta.append(None)
+        mons.append((len(lines) - 1, chunks, outs, boot))
         res.evaluations += 1
-        res.count("frames kind=after-exceeded")
+        res.count("frames kind=after-exceeded" + ("(bootstrap)" if boot else ""))
+        if sum(1 for o in outs if "exceeded" in o) >= 1 and any(x.startswith("frame ") for o in outs[[("exceeded" in o) for o in outs].index(True) + 1:] for x in o):
+            res.count("frames delivered again in a read after lengthLimitExceeded")
     got = ctx.model("brokerclient", lines)
-    for l, e, g in zip(lines, exp, got):
-        if e != g:
-            res.disagreements.append({"component": "brokerclient/frame(after exceeded)", "request": l, "impl": e, "model": g})
+    for l, e, g, m in zip(lines, exp, got, meta):
+        if e is not None and e != g:
+            res.disagreements.append({"component": "brokerclient/frame(after exceeded)", "request": l, "impl": e, "model": g,
+                                      "scenario": {"chunks": [c.hex() for c in m[0]], "at_chunk": m[1], "bootstrap": m[2]} if m else None})
             break
+    for idx, chunks, outs, boot in mons:
+        if got[idx] != ["ok"] and not any("frame-not-of-the-stream" in f["tags"] for f in res.monitor_failures):
+            res.monitor_failures.append({
+                "what": "a packet that is no frame of the byte stream was handed to stringReceived (bytes read from a misaligned position after an over-long prefix): a request can complete with bytes that never were a response frame",
+                "scenario": {"protocol": "KafkaBootstrapProtocol" if boot else "KafkaProtocol", "transport": "keeps delivering after loseConnection()", "chunks": [c.hex() for c in chunks], "delivered_per_chunk": outs, "verdict": got[idx]},
+                "tags": ["frame-not-of-the-stream"]})
 
 
 # ------------------------------------------------------------------------------------------- bootstrap
 
 
-def boot_scenario(rng):
-    """Online generation against the real KafkaBootstrapProtocol. -> (events, obs)"""
+def boot_scenario(rng, feats=None):
+    """Online generation against the real KafkaBootstrapProtocol, state-aware: events the state does not enable
+    (bytes/cancel/loss after the loss, cancel of a fired Deferred) are generated rarely, on purpose.
+    -> (events, obs); `feats` (a dict) counts the situations reached."""
     r = BootRun()
     events, obs = [], []
     cids = [bytes([0, 0, 0, i]) for i in range(1, 4)] + [b"corr"]
-    sent = []  # payloads written
+    sent = []  # (serial, payload) written
+    live, tomb = {}, {}  # serial -> cid bytes: pending / cancelled and not yet answered
     sbuf = b""
-    single = rng.random() < 0.4
+    single = rng.random() < 0.3
+    feats = feats if feats is not None else {}
+
+    def note(k):
+        feats[k] = feats.get(k, 0) + 1
 
     def emit(line):
         events.append(line)
-        obs.append(r.ex(line))
+        ol = r.ex(line)
+        obs.append(ol)
+        for o in ol:
+            w = o.split()
+            if w[0] == "fire":
+                live.pop(int(w[1]), None)
+        return ol
 
-    for _ in range(rng.choice([3, 6, 10, 16])):
-        m = rng.random()
-        if m < 0.25 and not (single and r.serial >= 1):
-            cid = rng.choice(cids)
+    def queue_frame(body, what):
+        nonlocal sbuf
+        sbuf += lenpfx(body)
+        cid = body[0:4]
+        if what == "reply" and cid in tomb.values() and live:
+            note("boot reply to a cancelled id queued while another request is live")
+        if what == "unknown" and live:
+            note("boot unknown id queued while a request is live")
+
+    steps = rng.choice([3, 6, 10, 16])
+    after_lost = 0
+    for _ in range(steps):
+        if r.lost or r.t.disconnecting:
+            after_lost += 1
+            if after_lost > 3:
+                break
+        readable = not r.lost and not r.t.disconnecting
+        c = []
+        if not (single and r.serial >= 1):
+            c.append(("request", 5 if not r.lost else 2))
+        if sent and readable:
+            c.append(("reply", 5))
+            if tomb:
+                c.append(("tombreply", 6 if live else 2))
+        if readable:
+            c += [("unknown", 0.6), ("oversize", 0.3)]
+            if sbuf:
+                c.append(("deliver", 7))
+        if live:
+            c.append(("cancel", 2.5))
+        c.append(("lost", 0.8 if not r.lost else 0.1))
+        # rarely: something the state does not enable
+        c += [("cancel-any", 0.15), ("rawbytes", 0.15)]
+        x = rng.random() * sum(wt for _, wt in c)
+        k = c[-1][0]
+        for name, wt in c:
+            x -= wt
+            if x <= 0:
+                k = name
+                break
+        if k == "request":
+            free = [i for i in cids if i not in live.values() and i not in tomb.values()]
+            cid = rng.choice(free) if free and rng.random() < 0.85 else rng.choice(cids)
             pl = b"\x00\x03\x00\x00" + cid + bytes(rng.randrange(256) for _ in range(rng.randrange(0, 5)))
-            if rng.random() < 0.05:
+            if rng.random() < 0.04:
                 pl = pl[: rng.randrange(0, 8)]
-            emit("bs-request " + hx(pl))
-            sent.append(pl)
-        elif m < 0.45 and sent:
-            pl = rng.choice(sent)
-            sbuf += lenpfx(pl[4:8] + bytes(rng.randrange(256) for _ in range(rng.randrange(0, 6))))
-        elif m < 0.52:
-            sbuf += lenpfx(rng.choice([b"\x00\x00\x00\x09zz", b"", b"\x00\x01", rng.choice(cids) + b"u"]))
-        elif m < 0.55:
+            k0 = r.serial
+            ol = emit("bs-request " + hx(pl))
+            if r.serial > k0:
+                sent.append((k0, pl))
+                if not any(o.startswith("fire") for o in ol):
+                    live[k0] = pl[4:8]
+        elif k == "reply":
+            cand = [x for x in sent if x[0] in live]
+            k0, pl = rng.choice(cand) if cand and rng.random() < 0.75 else rng.choice(sent[-4:])
+            queue_frame(pl[4:8] + bytes(rng.randrange(256) for _ in range(rng.randrange(0, 6))), "reply")
+            tomb.pop(k0, None)
+        elif k == "tombreply":
+            k0 = rng.choice(sorted(tomb))
+            queue_frame(tomb[k0] + b"late", "reply")
+            tomb.pop(k0)
+        elif k == "unknown":
+            queue_frame(rng.choice([b"\x00\x00\x00\x09zz", b"", b"\x00\x01", rng.choice(cids) + b"u"]), "unknown")
+        elif k == "oversize":
             sbuf += struct.pack(">I", 0x80000000 + rng.randrange(0, 1000))
-        elif m < 0.8 and sbuf:
-            k = len(sbuf) if rng.random() < 0.4 else rng.randrange(1, len(sbuf) + 1)
-            data, sbuf = sbuf[:k], sbuf[k:]
+        elif k == "deliver":
+            m = rng.random()
+            n = len(sbuf)
+            cutat = n if m < 0.4 else (rng.choice([1, 2, 3, 4, 5, 7]) if m < 0.6 else rng.randrange(1, n + 1))
+            cutat = min(cutat, n)
+            data, sbuf = sbuf[:cutat], sbuf[cutat:]
+            if cutat < n:
+                note("boot stream cut inside the queued bytes")
             emit("bs-bytes " + hx(data))
-        elif m < 0.88 and r.serial:
+        elif k == "cancel":
+            k0 = rng.choice(sorted(live))
+            tomb[k0] = live[k0]
+            emit("bs-cancel %d" % k0)
+        elif k == "cancel-any":
             emit("bs-cancel %d" % rng.randrange(0, r.serial + 1))
-        elif m < 0.93:
-            emit("bs-lost")
-    if sbuf and rng.random() < 0.7:
+        elif k == "rawbytes":
+            emit("bs-bytes " + hx(bytes(rng.randrange(256) for _ in range(rng.randrange(1, 9)))))
+        elif k == "lost":
+            if live:
+                note("boot connection lost with requests pending")
+            emit("bs-lost " + rng.choice(["done", "done", "lost", "other"]))
+    if sbuf and not r.lost and not r.t.disconnecting and rng.random() < 0.7:
         emit("bs-bytes " + hx(sbuf))
-    if rng.random() < 0.6:
-        emit("bs-lost")
+    if not r.lost and rng.random() < 0.6:
+        if live:
+            note("boot connection lost with requests pending")
+        emit("bs-lost " + rng.choice(["done", "done", "lost", "other"]))
     return events, obs
 
 
@@ -227,7 +345,8 @@ def boot_check(ctx, res, scs):
         nreq = sum(1 for e in events if e.startswith("bs-request"))
         res.count("boot requests=%d" % min(nreq, 3))
         for e, ol in zip(events, obs):
-            res.count("boot " + C.branch_label(e, ol))
+            # (branch_label is written for broker-client observations: `fire <serial> <id> <kind>`; here it is `fire <serial> <kind>`)
+            res.count("boot " + e.split()[0] + ":" + ("+".join(sorted(set(("fire_" + " ".join(o.split()[2:4 if o.split()[2] == "err" else 3])) if o.startswith("fire ") else " ".join(o.split()[:1 if not o.startswith("raise") else 2]) for o in ol))) or "-"))
         if nreq >= 1 and any(o.startswith("fire") for ol in obs for o in ol):
             res.nontrivial(["boot", events])
         dis = None
@@ -240,7 +359,15 @@ def boot_check(ctx, res, scs):
         elif got[base + mm] != ["ok"]:
             res.disagreements.append({"component": "monitor(bootstrap) rejects the MODEL's own trace", "scenario": events, "impl": None, "model": got[base + mm]})
         if got[base + mi] != ["ok"]:
-            res.monitor_failures.append({"what": "bootstrap connection: a request Deferred fired twice / with a frame that is not its own / not at all", "scenario": {"events": events, "obs": obs, "verdict": got[base + mi]}, "tags": ["bootstrap-exactly-once"]})
+            w = got[base + mi][0].split() if got[base + mi] else []
+            at = int(w[1]) if len(w) == 2 and w[0] == "fail" and w[1].isdigit() else -1
+            what, tag = "bootstrap connection: a request Deferred fired twice / with a frame that is not its own / not at all", "bootstrap-exactly-once"
+            if 0 <= at < len(events) and events[at].startswith("bs-bytes") and "lose" in obs[at]:
+                # the monitor allows `lose` only for an over-long prefix or a packet nobody is waiting for; the late
+                # reply to a request CANCELLED on this connection is awaited
+                what = "bootstrap connection: the protocol dropped the connection (failing the other pending requests) over a packet that was no over-long prefix and whose id was not unknown - e.g. the late reply to a cancelled request (step %d: %s)" % (at, events[at])
+                tag = "bootstrap-drop-on-awaited-id"
+            res.monitor_failures.append({"what": what, "scenario": {"events": events[: at + 1] if at >= 0 else events, "obs": obs[: at + 1] if at >= 0 else obs, "verdict": got[base + mi]}, "tags": [tag]})
         elif got[base + mi + 1] != ["ok"]:
             # the strict monitor differs from the plain one in exactly one demand, so its failure IS this history:
             # the protocol called loseConnection() over a packet nobody asked for while requests were pending
@@ -429,7 +556,10 @@ def run(ctx, res):
         "observations (strict order) and the internal state (white box). non-trivial (C06) = at least one reply delivered AND one of "
         "{cancel fired, unknown id, partial frame, several replies in one chunk, connection dropped, close with pending, short frame}. "
         "framing: random frame lists cut at random positions (thorough: ALL cut sets of short streams) fed to the real KafkaProtocol / "
-        "KafkaBootstrapProtocol; bootstrap: random request/reply/cancel/loss histories. distinct = by content hash."
+        "KafkaBootstrapProtocol, and streams continued after an over-long prefix by a transport that keeps delivering (every packet delivered must be a "
+        "frame of the byte stream: monitor framesGenuine); bootstrap: state-aware request/reply/cancel/loss histories (replies to live, answered and CANCELLED ids "
+        "with other requests pending, unknown ids, over-long prefixes, stream cut anywhere, loss reasons ConnectionDone/ConnectionLost/other, requests after the loss). "
+        "distinct = by content hash."
     )
     rng = ctx.rng
     # framing
@@ -451,8 +581,11 @@ def run(ctx, res):
     frame_cases(ctx, res, cases)
     after_exceeded_cases(ctx, res, ctx.scale(200, 3000))
     # bootstrap
+    bfeats = {}
     with instrumented():
-        scs = [boot_scenario(rng) for _ in range(ctx.scale(1500, 30000))]
+        scs = [boot_scenario(rng, bfeats) for _ in range(ctx.scale(1500, 30000))]
+    for k, v in bfeats.items():
+        res.count(k, v)
     boot_check(ctx, res, scs)
     # broker client
     bc_run(ctx, res, PID, MON, PROFILES)
@@ -515,6 +648,33 @@ def bc_replay(ctx, data, pid, mon):
         w = data["no_longer_checks"][0].get("what")
         sc = w.get("scenario") if isinstance(w, dict) else None
         print("replay of a broken correspondence/proof:", json.dumps(data["no_longer_checks"][0], default=str)[:2000])
+    if isinstance(sc, dict) and "chunks" in sc and "delivered_per_chunk" in sc:
+        # framing level: a protocol fed chunk by chunk by a transport that keeps delivering
+        chunks = [bytes.fromhex(c) for c in sc["chunks"]]
+        fr = FrameRun(bootstrap=sc.get("protocol") == "KafkaBootstrapProtocol")
+        outs = [fr.feed(c) for c in chunks]
+        lines = ["fr-new"] + ["fr-feed " + hx(c) for c in chunks] + [genuine_line(chunks, outs)]
+        got = ctx.model("brokerclient", lines)
+        for i, (c, o, g) in enumerate(zip(chunks, outs, got[1:])):
+            print("%3d feed %-40s impl=%s%s" % (i, hx(c)[:40], o, "" if o == g else "   MODEL=%s" % g))
+        print("monitor framesGenuine on the packets the implementation delivered:", got[-1])
+        if got[-1] != ["ok"]:
+            print("VIOLATION property=%s replay=(this file)" % pid)
+            return 1
+        return 1 if any(o != g for o, g in zip(outs, got[1:])) else 0
+    if isinstance(sc, dict) and "events" in sc and "header" not in sc and all(e.startswith("bs-") for e in sc["events"]):
+        with instrumented():
+            r = BootRun()
+            obs = [r.ex(e) for e in sc["events"]]
+        lines, idx, mm, mi = boot_lines(sc["events"], obs)
+        got = ctx.model("brokerclient", lines)
+        for j, e in enumerate(sc["events"]):
+            print("%3d %-40s impl=%s%s" % (j, e[:40], obs[j], "" if obs[j] == got[idx[j]] else "   MODEL=%s" % got[idx[j]]))
+        print("bootstrap monitor on the implementation's trace: plain=%s strict=%s" % (got[mi], got[mi + 1]))
+        if got[mi] != ["ok"]:
+            print("VIOLATION property=%s replay=(this file)" % pid)
+            return 1
+        return 1 if any(obs[j] != got[idx[j]] for j in range(len(obs))) else 0
     if not isinstance(sc, dict) or "events" not in sc or "header" not in sc:
         print("nothing replayable in this file (scenario: %r)" % (sc,))
         return 0 if not f else 1
